@@ -522,6 +522,9 @@ def check_models(case):
                 alts.append(("parent-cardinality", states[p][:-1]))
             alts.append(("parent-state-names", states[p][:-1] + [_new_state(states[p])]))
             alts.append(("parent-state-names", [_new_state(states[p])] + states[p][1:]))
+            if len(states[p]) >= 2:
+                # same names in another ORDER: the child's columns would be read against the wrong parent states
+                alts.append(("parent-state-order", states[p][1:] + states[p][:1]))
             for fault, sp_ in alts:
                 st2 = dict(states)
                 st2[p] = sp_
